@@ -152,6 +152,9 @@ FIRE = [
     ("reference-circuit-drops-spin", "C05", [(SV, "    vector = get_vector(n_spinorbitals, n_electrons, mapping, up_then_down=up_then_down, spin=spin)", "    vector = get_vector(n_spinorbitals, n_electrons, mapping, up_then_down=up_then_down)")], "K9.vector-to-circuit"),
     ("scbk-edit-wrong-qubit", "C05", [(SCBK, '        if (spin_orbital - 1, "Z") in term:', '        if (spin_orbital, "Z") in term:')], "K8.scbk-qubits"),
     ("scbk-state-register-size", "C05", [(SV, "        return do_scbk_transform(vector, len(vector))", "        return do_scbk_transform(vector, len(vector) - 2)")], "K8.scbk-qubits"),
+    ("reference-circuit-memoised", "C05", [(SV, "def get_reference_circuit(n_spinorbitals, n_electrons, mapping, up_then_down=False, spin=None):", "@functools.lru_cache(maxsize=128)\ndef get_reference_circuit(n_spinorbitals, n_electrons, mapping, up_then_down=False, spin=None):"),
+                                             (SV, "import warnings\n", "import warnings\nimport functools\n")], "K1.memoisation"),
+    ("histogram-total-cached", "C18", [(HIST, "    @property\n    def n_shots(self):", "    @functools.cached_property\n    def n_shots(self):"), (HIST, "from collections import Counter\n", "from collections import Counter\nimport functools\n")], "K1.memoisation"),
     ("beta-fill-slice", "C05", [(SV, "        vector[1:2*n_beta+1:2] = 1", "        vector[1:2*n_beta:2] = 1")], "K9.alpha-beta"),
     ("scbk-state-deletes-wrong-qubit", "C05", [(SV, "    vector_scbk = np.delete(vector_bk, n_spinorbitals//2-1)", "    vector_scbk = np.delete(vector_bk, n_spinorbitals//2)")], "K8.scbk-qubits"),
     ("scbk-parity-from-beta", "C03", [(SCBK, "    parity_middle_orb = (-1)**n_alpha", "    parity_middle_orb = (-1)**(n_electrons - n_alpha)")], "K8.scbk-qubits"),
@@ -220,6 +223,7 @@ SILENT = [
     ("complex-expectation-spelling", "C02", [(BACK, "            return exp_real if (exp_imag == 0.) else exp_real + 1.0j * exp_imag", "            return exp_real + 1j * exp_imag if exp_imag != 0. else exp_real")]),
     ("merge-condition-spelling", "C09", [(CIRC, "                if (gate.name, gate.target, gate.control) == (g_prev.name, g_prev.target, g_prev.control):", "                if gate.name == g_prev.name and gate.target == g_prev.target and gate.control == g_prev.control:")]),
     ("redundant-gates-all-spelling", "C09", [(CIRC, "        for qubit_i in qubits:\n            if not gate_qubits[qubit_i] or gate_qubits[qubit_i][-1][1].inverse() != gate:\n                remove_gate = False\n                break", "        remove_gate = all(gate_qubits[q] and gate_qubits[q][-1][1].inverse() == gate for q in qubits)")]),
+    ("qubit-number-memoised", "C03", [(MT, "def get_qubit_number(mapping, n_spinorbitals):", "@functools.lru_cache(maxsize=None)\ndef get_qubit_number(mapping, n_spinorbitals):"), (MT, "from math import ceil\n", "from math import ceil\nimport functools\n")]),
     ("angle-law-spelling", "C06", [(AU, "    angle = 2.*coef if coef >= 0. else 4*np.pi+2*coef", "    angle = 2.*coef + (0. if coef >= 0. else 4*np.pi)")]),
     ("cirq-branches-reordered", "C01", [(TCIRQ, '        elif gate_name in {"SWAP"}:\n            target_circuit.append(GATE_CIRQ[gate_name](qubit_list[gate.target[0]], qubit_list[gate.target[1]]))\n        elif gate_name in {"CSWAP"}:\n            next_gate = GATE_CIRQ[gate_name].controlled(num_controls)\n            target_circuit.append(next_gate(*control_list, qubit_list[gate.target[0]], qubit_list[gate.target[1]]))\n',
                                          '        elif gate_name in {"CSWAP"}:\n            next_gate = GATE_CIRQ[gate_name].controlled(num_controls)\n            target_circuit.append(next_gate(*control_list, qubit_list[gate.target[0]], qubit_list[gate.target[1]]))\n        elif gate_name in {"SWAP"}:\n            target_circuit.append(GATE_CIRQ[gate_name](qubit_list[gate.target[0]], qubit_list[gate.target[1]]))\n')]),
